@@ -282,6 +282,24 @@ def nonneg_advance_rule(run):
             continue
         guards = q.guards_at(fn, c)
         g = q.establishes_order(fn, guards, sub[0], sub[1], strict=False)
+        if g is None and fresh_clock_reading(fn, sub[1])[0]:
+            # the guard may compare with ANOTHER reading of the clock (a local `now`): two fresh readings are the same value as
+            # long as no advance lies between the guard and this call (every way from an advance to here re-evaluates the guard)
+            for at_, pol_ in guards:
+                ca = q.cmp_atom(at_)
+                if not ca:
+                    continue
+                for x_ in (ca[1], ca[2]):
+                    if not fresh_clock_reading(fn, x_)[0]:
+                        continue
+                    g2 = q.establishes_order(fn, [(at_, pol_)], sub[0], x_, strict=False)
+                    if g2 is None:
+                        continue
+                    gb_ = fn.cfg.node_block(at_)
+                    cb_ = fn.cfg.node_block(c)
+                    ffs_ = [y for y in fn.calls() if q.callee_name(y) == FF]
+                    if all(cb_ not in fn.cfg.reach_from(fn.cfg.node_block(y), avoid={gb_}) or cb_ == gb_ for y in ffs_):
+                        g = g2
         if g is None:
             # callee clamp?
             if _callee_clamps(fx):
